@@ -10,22 +10,17 @@ import EngineModel.Basic.F64
 import EngineModel.Pure.BeatgridRat
 import EngineModel.Pure.Detect
 import EngineModel.Gen.DetectGen
+import EngineModel.Gen.TrackUtilsGen
+import EngineModel.Basic.F64Rat
+import EngineModel.Driver.Cmds.TracksV1
 
 open EngineModel EngineModel.Text
 
 namespace Drv
 open Pure.Beatgrid
 
-/-- The exact value of a finite double. -/
-def ratOfBits (x : UInt64) : Option Rat :=
-  let e := F64.expOf x
-  let m := F64.manOf x
-  if e = 2047 then none else
-  let mag : Rat :=
-    if e = 0 then (m : Rat) / ((2 ^ 1074 : Nat) : Rat)
-    else if e ≥ 1075 then (((m + 4503599627370496) * 2 ^ (e - 1075) : Nat) : Rat)
-    else ((m + 4503599627370496 : Nat) : Rat) / ((2 ^ (1075 - e) : Nat) : Rat)
-  some (if F64.signOf x then -mag else mag)
+/-- The exact value of a finite double (`F64.toRat`, the definition the C19/C20 proofs use). -/
+def ratOfBits (x : UInt64) : Option Rat := if F64.isFinite x then some (F64.toRat x) else none
 
 def showRat (q : Rat) : String := s!"{q.num}/{q.den}"
 
@@ -80,10 +75,43 @@ def plant2 (spec : Bool) (a : List String) : String :=
     if spec then (specLoad w).render
     else (LoadOutcome.ofExcept (Gen.Detect.loadDatabaseGen w)).render
 
+/-! ### C19: the regenerated waveform functions over the bit-exact `static_cast<int64_t>`
+(`Fl.FOps.cxx`: `Fl.toI64` on bit patterns, hardware doubles for the other operations) — the
+instance `C19_hi_property` / `C19_ov_property` are about. -/
+def wfBits (hi : Bool) (a : List String) : String :=
+  match a with
+  | [n, r] =>
+    match n.toNat?, parseHex64 r with
+    | some n, some r =>
+      if n ≥ 18446744073709551616 then "bad-op u64" else
+      let ops := Drv.TracksV1.fops.cxx
+      let res := if hi then Gen.TrackUtils.calculate_high_resolution_waveform_extents ops n r
+        else Gen.TrackUtils.calculate_overview_waveform_extents ops n r
+      match res with
+      | some p => s!"ok {p.1} {hex64 p.2}"
+      | none => "ub float_cast_range"
+    | _, _ => "bad-op args"
+  | _ => "bad-op args"
+
+/-- `f64.val <bits>`: exact value `num/den` and the bit-exact int64 conversion. -/
+def f64Val (a : List String) : String :=
+  match a with
+  | [r] =>
+    match parseHex64 r with
+    | some r =>
+      let v := match ratOfBits r with | some q => showRat q | none => "nonfinite"
+      let t := match EngineModel.TracksV1.Fl.toI64 r with | some i => toString i | none => "none"
+      s!"ok {v} {t}"
+    | none => "bad-op args"
+  | _ => "bad-op args"
+
 def pureTable (cmd : String) (args : List String) : Option String :=
   match cmd, args with
   | "bg.normq", a => some (bgNormQ a)
   | "bg.window", a => some (bgWindow a)
+  | "wf.hib", a => some (wfBits true a)
+  | "wf.ovb", a => some (wfBits false a)
+  | "f64.val", a => some (f64Val a)
   | "plant2", a => some (plant2 false a)
   | "spec.plant2", a => some (plant2 true a)
   | _, _ => none
